@@ -186,10 +186,7 @@ section FileData
 open SpVerif.FileData
 
 /-- one setter call (the setters of `Model/FileData.lean`); a refused call leaves the PDU unchanged -/
-def fdStep (p : Pdu) (s : Setter) : Pdu × Option Err :=
-  match (p.put s).recalc with
-  | .ok q => (q, none)
-  | .error e => (p, some e)
+def fdStep (p : Pdu) (s : Setter) : Pdu × Option Err := p.step s
 
 def fdMachine : Machine Pdu Setter := ⟨fdStep⟩
 
